@@ -7,6 +7,7 @@ import (
 	"os"
 	"path/filepath"
 	"strings"
+	"sync/atomic"
 
 	oci "github.com/opencontainers/runtime-spec/specs-go"
 	"tags.cncf.io/container-device-interface/pkg/cdi"
@@ -147,13 +148,30 @@ func appendEdits(dst *specs.ContainerEdits, e specs.ContainerEdits) {
 type env struct {
 	cs     []Content
 	caches []*cdi.Cache
+	dirs   [][]string
 	shapes map[string]func() *oci.Spec
 }
 
+var failures atomic.Int64
+
 func (v *env) eval(c Case) hx.Result {
+	if failures.Load() > 50 {
+		// the caches are shared by all cases of a content; once results are wrong there is no point
+		// in piling more injections onto a cache that an aliasing bug may be growing without bound
+		return hx.Result{Outcome: "skipped-after-many-failures"}
+	}
+	res := v.eval1(c)
+	if res.Fail != nil {
+		failures.Add(1)
+	}
+	return res
+}
+
+func (v *env) eval1(c Case) hx.Result {
 	return hx.Guard("", c, func() hx.Result {
 		content := v.cs[c.contentI]
-		cache := v.caches[c.contentI]
+		// a cache of its own for every case: results must not depend on earlier injections
+		cache, _ := cdi.NewCache(cdi.WithSpecDirs(v.dirs[c.contentI]...), cdi.WithAutoRefresh(false))
 		// reference composition
 		combined := specs.ContainerEdits{}
 		seen := map[*fileDef]bool{}
@@ -190,6 +208,14 @@ func (v *env) eval(c Case) hx.Result {
 		unresolved, err := cache.InjectDevices(got, c.Request...)
 		if err != nil || len(unresolved) != 0 {
 			return fail("resolvable-request-fails", fmt.Sprintf("injection of resolvable devices failed: %v %v", unresolved, err), nil, fmt.Sprint(err))
+		}
+		// the same request once more into an equal OCI spec, on the same cache: equal result
+		again := v.shapes[c.OCI]()
+		if u2, err2 := cache.InjectDevices(again, c.Request...); err2 != nil || len(u2) != 0 {
+			return fail("second-injection-fails", fmt.Sprintf("the same request failed the second time: %v %v", u2, err2), nil, fmt.Sprint(err2))
+		}
+		if ok, where := refmodel.OCIEqual(got, again); !ok {
+			return fail("second-injection-differs:"+where+":"+shapeOf(c), "injecting the same request into an equal OCI spec a second time gives a different result, in "+where, refmodel.Normalise(got), refmodel.Normalise(again))
 		}
 		// provenance: nothing of an unrequested device or an uninvolved/shadowed file
 		if got.Process != nil {
@@ -275,6 +301,7 @@ func main() {
 			os.Exit(2)
 		}
 		v.caches = append(v.caches, cache)
+		v.dirs = append(v.dirs, []string{filepath.Join(dir, "d0"), filepath.Join(dir, "d1")})
 	}
 	if r.Replay != "" {
 		var c Case
